@@ -768,6 +768,11 @@ impl Router {
                             ackslog.unsuback(unsuback);
                             self.scheduler.untrack(id, filter);
                             self.datalog.remove_waiters_for_id(id, filter);
+                            // a publish earlier in this batch may already have woken the
+                            // parked request; it must not be tracked again after the batch
+                            self.notifications.retain(|(cid, request)| {
+                                !(*cid == id && request.filter == *filter)
+                            });
                             force_ack = true;
                         }
                     }
